@@ -1,8 +1,9 @@
 #!/bin/bash
 # iso_seed_run.sh <patch.diff> <check-id>... : like seed_run.sh, but in the isolated copy made by tools/mutation_setup.sh
-# (/var/tmp/mut/repo + /var/tmp/mut/verif), so that /repo and /verif/run are left alone while long runs use them.
+# ($MUTROOT/repo + $MUTROOT/verif, default /var/tmp/mut), so that /repo and /verif/run are left alone while long runs use them.
 P=$(readlink -f "$1"); shift
-R=/var/tmp/mut/repo; V=/var/tmp/mut/verif
+M=${MUTROOT:-/var/tmp/mut}
+R=$M/repo; V=$M/verif
 cd $R || exit 2
 git checkout -q -- . ; git clean -fdq
 if ! git apply "$P" 2>/dev/null && ! git apply -3 "$P" 2>/dev/null; then echo "patch does not apply"; git reset -q --hard HEAD; exit 3; fi
